@@ -528,6 +528,7 @@ class Run:
         rec, sm = self.rec, self.sm
         how = step.get("how", "deepcopy")
         sm.custom_attr = {"k": [1, 2], "n": len(rec.log)}
+        sm._custom_private = ["retries", len(rec.log)]     # user state kept in a private attribute
         try:
             state_before = sm.current_state.id
         except Exception:  # noqa: BLE001
@@ -555,6 +556,8 @@ class Run:
                 problems.append(f"option {attr}: {getattr(clone, attr, '<missing>')!r} != {getattr(sm, attr, '<missing>')!r}")
         if getattr(clone, "custom_attr", None) != sm.custom_attr or getattr(clone, "custom_attr", None) is sm.custom_attr:
             problems.append("custom attribute not copied (or shared)")
+        if getattr(clone, "_custom_private", None) != sm._custom_private or getattr(clone, "_custom_private", None) is sm._custom_private:
+            problems.append("custom private attribute (_custom_private) not copied (or shared)")
         try:
             cstate = clone.current_state.id
         except Exception:  # noqa: BLE001
@@ -732,6 +735,12 @@ class Run:
                 sm.current_state_value = value
             elif kind == "cs":
                 sm.current_state = getattr(sm, step["target"])
+            elif kind == "cs_foreign":
+                from statemachine import State as _State
+
+                foreign = _State("Foreign", value="zz_foreign_value")
+                foreign._set_id("zz_foreign")
+                sm.current_state = foreign
             rec.emit("step", op="write", phase="end", wkind=kind, target=step.get("target"), valid=step.get("valid", True))
         except Exception as err:  # noqa: BLE001
             rec.emit("step", op="write", phase="end", wkind=kind, target=step.get("target"), valid=step.get("valid", True),
